@@ -381,7 +381,7 @@ class InternationalizationExtension(Extension):
                     plural_expr = nodes.Name("_trans", "load")
                     variables[token.value] = plural_expr
                     plural_expr_assignment = nodes.Assign(
-                        nodes.Name("_trans", "store"), var
+                        nodes.Name("_trans", "store"), var, lineno=lineno
                     )
                 else:
                     plural_expr = var
